@@ -100,7 +100,7 @@ static bool same(const Answer& a, const Answer& b) {
 struct Op { std::string name; int kind; int a = 0, b = 0; bool config = false; int cslot = -1, cval = 0; };
 enum { K_UNK, K_RES, K_SSQ, K_DEF, K_QXX, K_QBB, K_Q0XX, K_LINDEP, K_MINX_ALL, K_MINX_S, K_RESET, K_SETALG, K_QBX, K_ADJ_X, K_ADJ_R, K_ADJ_RTR, K_ADJ_SETDATA,
        N_SOLVE, N_RES, N_VWV, N_DOF, N_NULL, N_M0, N_NUNK, N_NOBS, N_QXX, N_QBB, N_STDOBS, N_WCOEF, N_STDRES, N_STUD, N_OBSCTL, N_UNKSTD, N_ELL, N_LINDEP, N_COND, N_CONF, N_HUGE, N_CONN, N_M0POST,
-       N_SETALG, N_UPD, N_M0TYPE, N_CONFPR, N_STATUS, N_UNKTAB, N_OBSACT };
+       N_SETALG, N_UPD, N_M0TYPE, N_CONFPR, N_STATUS, N_UNKTAB, N_OBSACT, N_DH, N_CONFBAD };
 
 static uint64_t hvec(const double* p, int n, uint64_t h) { for (int i = 0; i < n; i++) h = hround(p[i], h); return h; }
 template <class V> static uint64_t hv(const V& v, uint64_t h = 1469598103934665603ULL) { int n = v.dim(); h = fnv(&n, sizeof n, h); return n ? hvec(v.begin(), n, h) : h; }
@@ -275,6 +275,8 @@ struct NetTarget : Target {
   int cfg_cp = 0;      // index into conf-pr menu
   int cfg_st = 0;      // 0 = status as in the input, 1 = first / 2 = last free xy point fixed (PD status changed + update_points)
   int cfg_ob = 0;      // 0 = observations as in the input, 1 = first observation passive, 2 = whole first cluster passive (+ update_observations)
+  int cfg_dh = 0;      // 0 = instrument / target heights as in the input, 1 = those of the first observation that has any set to zero
+  GNU_gama::local::Observation* dh_obs = nullptr; double dh_from = 0, dh_to = 0;
   bool orig_constrained = false, last_constrained = false;
   NetTarget(const Problem& pp) : Target(pp) {
     net.reset(new LocalNetwork);
@@ -289,6 +291,7 @@ struct NetTarget : Target {
     GNU_gama::local::refine_obsdh_reductions(net.get());
     cfg_alg = 0; cfg_minx = 0;
     cfg_m0 = net->m_0_aposteriori() ? 1 : 0;
+    for (auto* c : net->OD.clusters) { for (auto* ob : c->observation_list) if (!dh_obs && (ob->from_dh() != 0 || ob->to_dh() != 0)) { dh_obs = ob; dh_from = ob->from_dh(); dh_to = ob->to_dh(); } }
     for (auto i = net->PD.begin(); i != net->PD.end(); ++i) if (i->second.free_xy()) {
       if (pt_id.empty()) { pt_id = i->first.str(); orig_constrained = i->second.constrained_xy(); }
       pt_last = i->first.str(); last_constrained = i->second.constrained_xy();
@@ -297,14 +300,14 @@ struct NetTarget : Target {
   std::string key() override {
     LocalNetwork& n = *net;
     std::ostringstream o;
-    o << cfg_alg << "/" << cfg_m0 << "/" << cfg_cp << "/" << cfg_st << "/" << cfg_ob << " N f" << n.tst_redbod_ << n.tst_redmer_ << n.tst_rov_opr_ << n.tst_vyrovnani_ << " a" << n.algorithm_ << " t" << (int)n.typ_m_0_ << " c" << n.konf_pr_;
+    o << cfg_alg << "/" << cfg_m0 << "/" << cfg_cp << "/" << cfg_st << "/" << cfg_ob << "/" << cfg_dh << " N f" << n.tst_redbod_ << n.tst_redmer_ << n.tst_rov_opr_ << n.tst_vyrovnani_ << " a" << n.algorithm_ << " t" << (int)n.typ_m_0_ << " c" << n.konf_pr_;
     if (n.tst_rov_opr_) o << " A" << std::hex << (hm(n.A) & 0xffffff) << " b" << (hv(n.b) & 0xffffff) << std::dec;
     if (n.tst_vyrovnani_) o << " r" << std::hex << (hv(n.r) & 0xffffff) << " s" << (hv(n.sigma_L) & 0xffffff) << " w" << (hv(n.vahkopr) & 0xffffff) << " p" << (hround(n.suma_pvv_, 7) & 0xffffff) << std::dec;
     o << " rm" << n.removed_points.size() << " | " << key_base(n.least_squares);
     return o.str();
   }
   bool risky(const Op& op) override { return !op.config && !net->tst_vyrovnani_; }
-  std::vector<int> cfgv() const override { return {cfg_alg, cfg_m0, cfg_cp, cfg_st, cfg_ob}; }
+  std::vector<int> cfgv() const override { return {cfg_alg, cfg_m0, cfg_cp, cfg_st, cfg_ob, cfg_dh}; }
   Answer apply(const Op& op) override {
     static const char* AN[4] = {"envelope", "gso", "svd", "cholesky"};
     static const double CP[2] = {0.95, 0.80};
@@ -312,7 +315,7 @@ struct NetTarget : Target {
     return guarded([&](Answer& a) {
       // indexed queries are only meaningful inside the current dimensions (a status change shrinks them)
       // (asked only after a status change: unknowns_count() is itself a query that prepares the network)
-      if (cfg_st != 0 || cfg_ob != 0) switch (op.kind) {
+      if (cfg_st != 0 || cfg_ob != 0 || cfg_dh != 0) switch (op.kind) {
         case N_QXX: case N_UNKSTD: case N_LINDEP:
           if (op.a > n.unknowns_count() || op.b > n.unknowns_count()) { a.exc = "index-beyond-unknowns"; return; }
           break;
@@ -377,6 +380,14 @@ struct NetTarget : Target {
           }
           n.update_observations(); cfg_ob = op.a; a.isvoid = true;
           break; }
+        case N_DH: {
+          // an editor changes the instrument / target height of an observation of the live network
+          if (!dh_obs) { a.isvoid = true; return; }
+          dh_obs->set_from_dh(op.a ? 0.0 : dh_from); dh_obs->set_to_dh(op.a ? 0.0 : dh_to);
+          GNU_gama::local::refine_obsdh_reductions(&n);      // what gama-local does before every linearisation
+          n.update_observations(); cfg_dh = op.a; a.isvoid = true;
+          break; }
+        case N_CONFBAD: n.conf_pr(op.a ? 1.5 : 0.0); a.isvoid = true; break;      // must throw and leave the object as it was
         case N_UNKTAB: {
           int nu = n.unknowns_count(); a.v.push_back(nu);
           for (int i = 1; i <= nu; i++) { a.v.push_back((double)n.unknown_type(i)); std::string id = n.unknown_pointid(i).str(); a.v.push_back((double)(fnv(id.data(), id.size()) % 1000003)); }
@@ -400,6 +411,7 @@ static std::vector<Op> make_ops(const Problem& p, int kind) {
       case N_CONFPR: o.cslot = 2; o.cval = a; break;
       case N_STATUS: o.cslot = 3; o.cval = a; break;
       case N_OBSACT: o.cslot = 4; o.cval = a; break;
+      case N_DH: o.cslot = 5; o.cval = a; break;
       default: break;
     }
     ops.push_back(o);
@@ -424,6 +436,8 @@ static std::vector<Op> make_ops(const Problem& p, int kind) {
     add("unknown_table", N_UNKTAB);
     add("first observation := passive + update_observations", N_OBSACT, 1, 0, true); add("first cluster := passive + update_observations", N_OBSACT, 2, 0, true);
     add("all observations of the first cluster := active + update_observations", N_OBSACT, 0, 0, true);
+    add("dh(first observation with heights := 0)+update_observations", N_DH, 1, 0, true); add("dh(as in input)+update_observations", N_DH, 0, 0, true);
+    add("conf_pr(1.5) [refused]", N_CONFBAD, 1); add("conf_pr(0) [refused]", N_CONFBAD, 0);
     add("status(first free xy point := fixed)+update_points", N_STATUS, 1, 0, true); add("status(last free xy point := fixed)+update_points", N_STATUS, 2, 0, true); add("status(as in input)+update_points", N_STATUS, 0, 0, true);
     return ops;
   }
@@ -471,10 +485,10 @@ struct Explorer {
   bool enabled(const Op& o) const {
     if (kind != 5) return true;
     switch (adj_subset) {
-      case 0: return o.kind != N_STATUS && o.kind != N_OBSACT;                          // alg x m0 x conf-pr
-      case 1: return o.kind != N_M0TYPE && o.kind != N_CONFPR && o.kind != N_OBSACT;    // alg x status
+      case 0: return o.kind != N_STATUS && o.kind != N_OBSACT && o.kind != N_DH;        // alg x m0 x conf-pr
+      case 1: return o.kind != N_M0TYPE && o.kind != N_CONFPR && o.kind != N_OBSACT && o.kind != N_DH;    // alg x status
       case 2: return o.kind != N_M0TYPE && o.kind != N_CONFPR && o.kind != N_STATUS;    // alg x observation activity
-      case 3: return o.kind != N_M0TYPE && o.kind != N_CONFPR && o.kind != N_SETALG;    // status x observation activity
+      case 3: return o.kind != N_M0TYPE && o.kind != N_CONFPR && o.kind != N_SETALG && o.kind != N_DH;    // status x observation activity
       default: return true;                                                             // full product
     }
   }
@@ -680,7 +694,7 @@ static std::vector<Problem> problems() {
   { size_t n0 = P.size(); for (size_t i = 0; i < n0; i++) if (P[i].name == "loop5" || P[i].name == "reg4" || P[i].name == "split4") { Problem q = P[i]; q.name += "+corr"; q.corr = true; P.push_back(q); } }
   // LocalNetwork problems (input files generated by data/c04/make.py)
   std::string dir = ctx().opt.count("data") ? ctx().opt["data"] : "/verif/data/c04";
-  for (const char* nm : {"net2d", "levfree", "net2dfree", "bridge2d"}) {
+  for (const char* nm : {"net2d", "levfree", "net2dfree", "bridge2d", "net3dh"}) {
     std::ifstream in(dir + "/" + nm + ".gkf");
     if (!in) continue;
     std::stringstream ss; ss << in.rdbuf();
